@@ -617,11 +617,14 @@ impl<'a> Resolver<'a> {
             for s in &e.sels {
                 match s {
                     RSel::Scalar { out, f } => {
+                        // binary and system fields are not grouping keys for the implementation (known
+                        // findings): ordering on them reads an arbitrary row of the group, nothing to decide
+                        if f.system || f.ty == Ty::Base64 {
+                            continue;
+                        }
                         if *out == f.name {
-                            if !f.system {
-                                otargets.push((Target::Field(f.clone()), f.clone()));
-                            }
-                        } else if !f.system {
+                            otargets.push((Target::Field(f.clone()), f.clone()));
+                        } else {
                             otargets.push((Target::Alias(out.clone()), f.clone()));
                         }
                     }
